@@ -19,8 +19,11 @@ def run(ctx):
         "MutBumpVecRev: push, pop, pop_if, clear, truncate, insert, remove, swap_remove, extend_from_slice_clone, resize, resize_with, append, "
         "into_iter, drop; partition (in Props/C16); history level: every finite sequence of the 18 single-vector operations "
         "(history_drops_once, history_never_drops_twice)",
-        "zero-sized element types: counting model (Coll/Zst.lean) of Drain (as repaired) / IntoIter / truncate / split_off / merge proved "
-        "exactly-once by counts; not replayed by the driver (the implementation side is the counting oracle)",
+        "zero-sized element types: counting model (Coll/Zst.lean) of Drain (as repaired) / IntoIter / truncate / split_off / merge / "
+        "extend_from_within_clone (panicking clone at call k) proved exactly-once by counts; on the implementation EVERY zero-sized branch of "
+        "the collection code is driven with a counting ZST whose Clone / closures / Drop panic at every call index (variant traces, all "
+        "owners incl. MutBumpVecRev::extend_from_within_clone; reserve(usize::MAX) -> capacity overflow; into_boxed_slice): oracle by counts, "
+        "not replayed by the driver",
         "BumpVec::map (generic_map: in-place path with its DropGuard for same / smaller layouts incl. the byte-overlap check of every write, "
         "from_iter_exact fallback for bigger / stricter-aligned / zero-sized layouts) and into_flattened: modelled + proved + replayed (profile split); "
         "zero-sized input/output of map run the fallback: covered by the id-level theorem abstractly and by counting oracles on the implementation",
